@@ -66,6 +66,7 @@ func TestC13Stall(t *testing.T) {
 	rec := evid.New(t, "C13", "2..4 channels on custom transports; one transport stops accepting writes (gate) after a warm-up, 70..300 tagged items are written to all channels while it is blocked (more than the 64-item queue), then the gate opens and more items follow; oracles: every Write call returns promptly, every other channel receives every item in order while the victim is blocked and their incoming frame events keep flowing, the victim's stream is an order-preserving duplicate-free subsequence, nothing submitted before or after the blocked interval is missing, at most queue+1 items of the blocked interval are delivered late; non-trivial = more than 64 items submitted during the block; distinct by hash of the parameters")
 	rec.Require("blocked>64", "incoming-during-block", "writes-mixed")
 	evid.Check(t, rec, evid.N(120, 400), func(t *rapid.T) {
+		drawNodeInit(t)
 		nch := rapid.IntRange(2, 4).Draw(t, "nch")
 		victim := rapid.IntRange(0, nch-1).Draw(t, "victim")
 		n1 := rapid.IntRange(0, 40).Draw(t, "warmup")
@@ -95,7 +96,7 @@ func runC13Stall(nch, victim, n1, n2, n3, incoming int, mode string) error {
 		endpoints = append(endpoints, gomavlib.EndpointCustom{ReadWriteCloser: pipes[i]})
 	}
 	n := &gomavlib.Node{Endpoints: endpoints, Dialect: ardupilotmega.Dialect, OutVersion: gomavlib.V2, OutSystemID: nodeSys, HeartbeatDisable: true}
-	if err := n.Initialize(); err != nil {
+	if err := initNode(&n); err != nil {
 		return fmt.Errorf("BROKEN: %v", err)
 	}
 	rec := sim.StartRecorder(n, sim.Pacing{Kind: "fast"}, nil)
@@ -323,6 +324,7 @@ func TestC13WriteFailure(t *testing.T) {
 	rec := evid.New(t, "C13", "2..4 channels; after a warm-up a write fails on one channel - the transport returns an error at a generated call, or an item that cannot be encoded for the link is written (raw message with an id outside the dialect, raw message on a dialect-less node, message id > 255 on a v1 node) at a generated position - then valid items follow; within the bound each affected channel must either be reported closed or deliver a later valid item; healthy channels keep receiving everything; non-trivial = later valid writes follow the failure; distinct by hash of the parameters")
 	rec.Require("transport-error", "raw-outside-dialect", "id>255-on-v1", "raw-on-dialectless")
 	evid.Check(t, rec, evid.N(200, 600), func(t *rapid.T) {
+		drawNodeInit(t)
 		nch := rapid.IntRange(2, 4).Draw(t, "nch")
 		kind := rapid.SampledFrom([]string{"transport-error", "transport-error", "raw-outside-dialect", "id>255-on-v1", "raw-on-dialectless"}).Draw(t, "kind")
 		victim := rapid.IntRange(0, nch-1).Draw(t, "victim")
@@ -353,7 +355,7 @@ func runC13Failure(nch int, kind string, victim, before, after, repeat int) erro
 	if kind == "raw-on-dialectless" {
 		n.Dialect = nil
 	}
-	if err := n.Initialize(); err != nil {
+	if err := initNode(&n); err != nil {
 		return fmt.Errorf("BROKEN: %v", err)
 	}
 	rec := sim.StartRecorder(n, sim.Pacing{Kind: "fast"}, nil)
